@@ -267,6 +267,41 @@ theorem lanewise_stdUn2 {α β : Type} {S : Nat} (sem : StdUnOp → α → Optio
   un_canonical loop_STD_UNARY_OP_v2 (by decide) (by decide) (by decide) (sem op) a
 
 -- ------------------------------------------------------------------------------------------------
+-- compound assignment with a lane of the destination as scalar operand
+-- ------------------------------------------------------------------------------------------------
+section Alias
+variable {α : Type} {S S₂ : Nat}
+
+/-- an operator that takes its scalar by value is not affected by the aliasing: `v OP= lane(k, v)` is
+    `v OP= (the value of lane k before the call)` -/
+theorem ipVA_byValue (L : Loop) (ia : Ix) (hargs : L.args = [.vec 0 ia, .scalar]) (hv : L.scalarByRef = false)
+    (f : α → α → Option α) (a : Vec α S) (k : Nat) :
+    Simd.ipVA L f a k = (a[k]?).bind fun s => Simd.ipVS L f a s := by
+  unfold Simd.ipVA Simd.ipVS
+  rw [hargs]
+  simp only [hv, Bool.false_eq_true, if_false, Option.bind_some]
+
+theorem assignVA_byValue (sem : AssignOp → α → α → Option α) (op : AssignOp) (a : Vec α S) (k : Nat) (hk : k < S) :
+    Simd.assignVA sem op a k = Simd.assignVS sem op a a[k] := by
+  unfold Simd.assignVA Simd.assignVS
+  rw [ipVA_byValue _ .i (by decide) (by decide), Vector.getElem?_eq_getElem hk]
+  rfl
+
+theorem ipVANested_byValue (L : Loop) (ia : Ix) (hargs : L.args = [.vec 0 ia, .scalar]) (hv : L.scalarByRef = false)
+    (f : α → α → Option α) (a : Vec (Vec α S₂) S) (k : Nat) :
+    Simd.ipVANested L f a k = (Simd.laneNested k a).bind fun s => Simd.ipVS L (Simd.ipVS L f) a s := by
+  unfold Simd.ipVANested Simd.ipVS
+  simp only [hargs, hv, Bool.false_eq_true, if_false]
+
+theorem assignVANested_byValue (sem : AssignOp → α → α → Option α) (op : AssignOp) (a : Vec (Vec α S₂) S) (k : Nat) :
+    Simd.assignVANested sem op a k =
+      (Simd.laneNested k a).bind fun s => Simd.ipVS loop_ASSIGNMENT_OP_vs (Simd.assignVS sem op) a s := by
+  unfold Simd.assignVANested Simd.assignVS
+  rw [ipVANested_byValue _ .i (by decide) (by decide)]
+
+end Alias
+
+-- ------------------------------------------------------------------------------------------------
 -- luDecomposition without throwEarly never throws
 -- ------------------------------------------------------------------------------------------------
 section NoThrow
